@@ -743,3 +743,18 @@ package originium
 //@ before_call (logger.Logger).Panicf#6: assert !BadFooter
 //@ before_call (logger.Logger).Panicf#7: assert !BadFooter
 //@ before_call (logger.Logger).Panicf#8: assert !BadFooter
+//
+// C15 ("for all ImmutableBuffer/threshold settings"): validate normalises every setting Open depends
+// on, so that no configuration makes Open panic: in particular the flush queue length handed to
+// make(chan) is not negative. Thin contract on Open: only that allocation is claimed here.
+//@ globalinv DefaultConfig.SkipListMaxLevel > 0 && DefaultConfig.MemtableByteThreshold > 0 && DefaultConfig.DataBlockByteThreshold > 0 && DefaultConfig.L0TargetNum > 0 && DefaultConfig.LevelRatio > 0 && DefaultConfig.ImmutableBuffer >= 0
+//@ func (*originium.Config).validate -> err
+//@ props C15
+//@ requires c != nil
+//@ assigns *c
+//@ ensures err == nil && c.SkipListMaxLevel > 0 && c.MemtableByteThreshold > 0 && c.DataBlockByteThreshold > 0 && c.L0TargetNum > 0 && c.LevelRatio > 0 && c.ImmutableBuffer >= 0
+//
+//@ func originium.Open -> db, err
+//@ props C15 C12
+//@ thin ^makechan
+//@ assigns writeset
